@@ -23,11 +23,20 @@ pub struct InstanceModel {
 /// fvar table, version 1.0. `axis_size_extra` adds padding bytes to each axis record
 /// (axisSize > 20 is legal and must be honoured by readers).
 pub fn fvar_table(axes: &[AxisModel], instances: &[InstanceModel], axis_size_extra: u16) -> Vec<u8> {
+    fvar_table_gap(axes, instances, axis_size_extra, 0)
+}
+
+/// as `fvar_table`, with `header_gap` filler bytes between the 16-byte header and the axes array
+/// (axesArrayOffset = 16 + gap: readers must follow the offset, not assume the array abuts the header)
+pub fn fvar_table_gap(axes: &[AxisModel], instances: &[InstanceModel], axis_size_extra: u16, header_gap: u16) -> Vec<u8> {
     let mut b = Buf::new();
     let axis_size = 20 + axis_size_extra;
     let has_ps = instances.iter().any(|i| i.postscript_name_id.is_some());
     let instance_size = 4 + 4 * axes.len() as u16 + if has_ps { 2 } else { 0 };
-    b.u16(1).u16(0).u16(16).u16(2).u16(axes.len() as u16).u16(axis_size).u16(instances.len() as u16).u16(instance_size);
+    b.u16(1).u16(0).u16(16 + header_gap).u16(2).u16(axes.len() as u16).u16(axis_size).u16(instances.len() as u16).u16(instance_size);
+    for k in 0..header_gap {
+        b.u8(0xA5 ^ (k as u8));
+    }
     for a in axes {
         b.tag(&a.tag).i32(a.min).i32(a.default).i32(a.max).u16(a.flags).u16(a.name_id);
         b.zeros(axis_size_extra as usize);
